@@ -430,3 +430,132 @@ pub proof fn lemma_same_spec_funs<D: Fn(u32, u32) -> u32, F: Fn(u32) -> bool>(m1
     assert(mz_aut(m1).d == mz_aut(m0).d);
     assert(mz_aut(m1).fin == mz_aut(m0).fin);
 }
+
+// ---- residual languages ----
+pub proof fn lemma_nerode_step(a: MzAut, x: u32, y: u32, c: u32)
+    requires nerode(a, x, y), c < a.m,
+    ensures nerode(a, (a.d)(x, c), (a.d)(y, c)),
+{
+    assert forall|w: Seq<u32>| mz_word(a, w) implies #[trigger] mz_acc(a, (a.d)(x, c), w) == mz_acc(a, (a.d)(y, c), w) by {
+        let cw = seq![c] + w;
+        assert(cw.drop_first() =~= w);
+        assert(cw[0] == c);
+        assert(mz_word(a, cw));
+        assert(mz_acc(a, x, cw) == mz_acc(a, y, cw));
+        assert(mz_run(a, x, cw) == mz_run(a, (a.d)(x, c), w));
+        assert(mz_run(a, y, cw) == mz_run(a, (a.d)(y, c), w));
+    }
+}
+
+pub proof fn lemma_nerode_fin(a: MzAut, x: u32, y: u32)
+    requires nerode(a, x, y),
+    ensures (a.fin)(x) == (a.fin)(y),
+{
+    let w = Seq::<u32>::empty();
+    assert(mz_word(a, w));
+    assert(mz_acc(a, x, w) == mz_acc(a, y, w));
+}
+
+// states of one block of a congruence that respects finality accept the same words
+pub proof fn lemma_cong_acc(a: MzAut, p: Partition, x: u32, y: u32, w: Seq<u32>)
+    requires aut_ok(a), refines_fin(a, p), congruence(a, p), x < a.n, y < a.n, same_blk(p, x, y), mz_word(a, w),
+    ensures mz_acc(a, x, w) == mz_acc(a, y, w), mz_run(a, x, w) < a.n, same_blk(p, mz_run(a, x, w), mz_run(a, y, w)),
+    decreases w.len(),
+{
+    if w.len() > 0 {
+        let c = w[0];
+        assert(step_same(a, p, x, y, c));
+        assert(mz_word(a, w.drop_first())) by { assert forall|i: int| 0 <= i < w.drop_first().len() implies #[trigger] w.drop_first()[i] < a.m by { assert(w.drop_first()[i] == w[i + 1]); } }
+        lemma_cong_acc(a, p, (a.d)(x, c), (a.d)(y, c), w.drop_first());
+    }
+}
+
+pub proof fn lemma_cong_nerode(a: MzAut, p: Partition, x: u32, y: u32)
+    requires aut_ok(a), refines_fin(a, p), congruence(a, p), x < a.n, y < a.n, same_blk(p, x, y),
+    ensures nerode(a, x, y),
+{
+    assert forall|w: Seq<u32>| mz_word(a, w) implies #[trigger] mz_acc(a, x, w) == mz_acc(a, y, w) by { lemma_cong_acc(a, p, x, y, w); }
+}
+
+// ---- one block split keeps Hopcroft's invariant (activity was handed on by act_moved) ----
+pub proof fn lemma_hop_split(a: MzAut, ls0: Seq<SplitterList>, ls1: Seq<SplitterList>, p0: Partition, p1: Partition, i: u32, j: u32, exc: spec_fn(u32, u32, u32) -> bool)
+    requires aut_ok(a), pt_wf(p0), pt_wf(p1), p0.base.size == a.n, p1.base.size == a.n,
+        j == p0.base.block@.len(), 1 <= i < j,
+        hop_inv(a, ls0, p0, exc),
+        act_moved(a, ls0, ls1, p1, i, j),
+        forall|x: u32| x < a.n && pt_bid(p0, x) != i ==> #[trigger] pt_bid(p1, x) == pt_bid(p0, x),
+        forall|x: u32| x < a.n && pt_bid(p0, x) == i ==> #[trigger] pt_bid(p1, x) == i || pt_bid(p1, x) == j,
+    ensures hop_inv(a, ls1, p1, exc),
+{
+    assert forall|x: u32, y: u32, c: u32| x < a.n && y < a.n && c < a.m && same_blk(p1, x, y) implies #[trigger] hop_pair(a, ls1, p1, exc, x, y, c) by {
+        let dx = (a.d)(x, c);
+        let dy = (a.d)(y, c);
+        assert(dx < a.n && dy < a.n);
+        // same block before
+        assert(same_blk(p0, x, y)) by {
+            let bx = pt_bid(p0, x); let by_ = pt_bid(p0, y);
+            assert(1 <= bx < j && 1 <= by_ < j);
+            if bx != i { assert(pt_bid(p1, x) == bx); }
+            if by_ != i { assert(pt_bid(p1, y) == by_); }
+        }
+        assert(hop_pair(a, ls0, p0, exc, x, y, c));
+        let b0x = pt_bid(p0, dx); let b0y = pt_bid(p0, dy);
+        let b1x = pt_bid(p1, dx); let b1y = pt_bid(p1, dy);
+        assert(1 <= b0x < j && 1 <= b0y < j);
+        if exc(x, y, c) {
+        } else if b0x == b0y {
+            if b1x != b1y {
+                assert(b0x == i);
+                if b1x == i { assert(ls_act(ls1, i as int, c) || ls_act(ls1, j as int, c)); }
+                else { assert(b1y == i && b1x == j); assert(ls_act(ls1, i as int, c) || ls_act(ls1, j as int, c)); }
+            }
+        } else if ls_act(ls0, b0x as int, c) {
+            if b0x == i { assert(ls_act(ls1, pt_bid(p1, (a.d)(x, c)) as int, c)); } else { assert(b1x == b0x); assert(ls_act(ls1, b0x as int, c) == ls_act(ls0, b0x as int, c)); }
+        } else {
+            assert(ls_act(ls0, b0y as int, c));
+            if b0y == i { assert(ls_act(ls1, pt_bid(p1, (a.d)(y, c)) as int, c)); } else { assert(b1y == b0y); assert(ls_act(ls1, b0y as int, c) == ls_act(ls0, b0y as int, c)); }
+        }
+    }
+}
+
+// lists_ok only looks at the block ids of states
+pub proof fn lemma_lists_ok_ext(a: MzAut, ls: Seq<SplitterList>, preds: Seq<BasePartition>, bv1: spec_fn(u32) -> u32, bv2: spec_fn(u32) -> u32, nb: int)
+    requires aut_ok(a), lists_ok(a, ls, preds, bv1, nb), forall|v: u32| v < a.n ==> #[trigger] app1(bv1, v) == app1(bv2, v),
+    ensures lists_ok(a, ls, preds, bv2, nb),
+{
+    assert forall|c: u32| c < a.m implies #[trigger] entries_ok(a, ls, preds[c as int], bv2, nb, c) by {
+        assert(entries_ok(a, ls, preds[c as int], bv1, nb, c));
+        assert forall|b: int, cls: u32, act: bool| #[trigger] ls_has(ls, b, c, cls, act) implies
+            1 <= b < nb && 1 <= cls < preds[c as int].block@.len() && class_is(a, preds[c as int], cls as int, bv2, b, c) by {
+            assert(class_is(a, preds[c as int], cls as int, bv1, b, c));
+            assert forall|x: u32| #[trigger] bp_in(preds[c as int], cls as int, x) <==> (x < a.n && bv2((a.d)(x, c)) == b) by {
+                if x < a.n { assert((a.d)(x, c) < a.n); assert(app1(bv1, (a.d)(x, c)) == app1(bv2, (a.d)(x, c))); }
+            }
+        }
+    }
+    assert forall|c: u32| c < a.m implies #[trigger] complete_for(a, ls, bv2, c) by {
+        assert(complete_for(a, ls, bv1, c));
+        assert forall|x: u32| x < a.n implies #[trigger] ls_entry(ls, bv2((a.d)(x, c)) as int, c) by {
+            assert((a.d)(x, c) < a.n);
+            assert(app1(bv1, (a.d)(x, c)) == app1(bv2, (a.d)(x, c)));
+            assert(ls_entry(ls, bv1((a.d)(x, c)) as int, c));
+        }
+    }
+}
+
+// splitting block b by "the c0-successor lies in block blk" never separates equivalent states
+pub proof fn lemma_keeps_nerode_split(a: MzAut, p0: Partition, p1: Partition, b: u32, blk: u32, c0: u32, j: u32)
+    requires aut_ok(a), keeps_nerode(a, p0), c0 < a.m, p0.base.size == a.n,
+        forall|x: u32| x < a.n && pt_bid(p0, x) != b ==> #[trigger] pt_bid(p1, x) == pt_bid(p0, x),
+        forall|x: u32| x < a.n && pt_bid(p0, x) == b ==> (#[trigger] pt_bid(p1, x) == b && pt_bid(p0, (a.d)(x, c0)) == blk) || (pt_bid(p1, x) == j && pt_bid(p0, (a.d)(x, c0)) != blk),
+    ensures keeps_nerode(a, p1),
+{
+    assert forall|x: u32, y: u32| x < a.n && y < a.n && #[trigger] nerode(a, x, y) implies same_blk(p1, x, y) by {
+        assert(same_blk(p0, x, y));
+        if pt_bid(p0, x) == b {
+            lemma_nerode_step(a, x, y, c0);
+            assert((a.d)(x, c0) < a.n && (a.d)(y, c0) < a.n);
+            assert(same_blk(p0, (a.d)(x, c0), (a.d)(y, c0)));
+        }
+    }
+}
